@@ -450,16 +450,25 @@ package task
 //@ ghost var sawExit bool scratch
 //@ ghost var sawCode int scratch
 //@ ghost var fpTouched bool scratch
+//@ ghost var skippedUpToDate bool scratch
+//@ ghost fact exclusive(t *ast.Task)
 //@ ghost var attempted bool scratch
 //@ ghost fact cleaned(t *ast.Task)
 
 //@ func (*Executor).RunTask$1
 //@   init fpTouched := false
+//@   init skippedUpToDate := false
 //@   init attempted := false
 //@   site fingerprint.WithDry#0 requires arg0 == e.Dry                                                [C12,C04]
 //@   site fingerprint.WithMethod#0 requires arg0 == (t.Method != "" ? t.Method : e.Taskfile.Method)  [C04]
 //@   site fingerprint.WithTempDir#0 requires arg0 == e.TempDir.Fingerprint                            [C04]
 //@   site fingerprint.IsTaskUpToDate#1 ghost fpTouched := !e.Dry
+// C01: "up to date" lets a caller go on at once - its dependants start - so it must not be the answer while another
+// call of the same task is still running the commands that make it true. The fingerprint is recorded BEFORE the
+// commands run, and nothing excludes a second, concurrent call (two tasks that both depend on a run: always task
+// with sources): exclusive(t) - no other execution of t is in flight - is established nowhere.
+//@   site fingerprint.IsTaskUpToDate#0 ghost skippedUpToDate := result.0 && result.1 == nil && preCondMet
+//@   ensures result == nil && skippedUpToDate ==> exclusive(t)                                        [C01]
 //@   site (*Executor).runCommand#1 ghost attempted := true
 //@   site (*Executor).statusOnError ghost set cleaned(t)
 //@   site (*Executor).mkdir#0 requires !e.Dry                                                         [C12]
